@@ -48,4 +48,5 @@ func runC11(r *Report) {
 	ruleInputsValidated(r)
 	ruleSentinelForm(r, "pq", "sstables", "memstore", "simpledb", "skiplist")
 	ruleSentinelProducible(r, "pq", "sstables", "memstore", "simpledb")
+	rulePanicNotParked(r)
 }
